@@ -309,6 +309,21 @@ def run(ctx):
                     for sd in seeds[:1 if (slow and ctx.quick) else ctx.n(2, 4)]:
                         jobs.append({"id": "%s|%s|%s|%d|rep:%s" % (nm, variant, ni, sd, hist), "api": nm,
                                      "variant": variant, "net": netof(ni)[0], "seed": sd, "neti": ni, "repeat": hist})
+    # seeded operations that accept a pool: FIFO vs LIFO in-line executors vs parallel=False (see c17_worker.run_pool)
+    POOL_APIS = {
+        "core.ContractionTree.parallel_temper": ["default"],
+        "pathfinders.path_simulated_annealing.parallel_temper_tree": ["default"],
+        "core.ContractionTree.subtree_reconfigure_forest": ["default", "select_max_bfs"],
+        "pathfinders.path_basic.RandomGreedyOptimizer": ["default"],
+    }
+    for nm, variants in sorted(POOL_APIS.items()):
+        if nm not in api_names:
+            continue
+        for variant in variants:
+            for ni in range(len(nets))[:ctx.n(2, 5)]:
+                for sd in seeds[:ctx.n(2, 4)]:
+                    jobs.append({"id": "%s|%s|%s|%d|pool" % (nm, variant, ni, sd), "api": nm, "variant": variant,
+                                 "net": netof(ni)[0], "seed": sd, "neti": ni, "pool": True})
     # corpus: the repro of every known finding is probed on every run
     corpus = []
     if os.path.isdir(CORPUS):
@@ -390,6 +405,10 @@ def run(ctx):
             ctx.count("api:" + nm.split(".")[-1])
             if job.get("repeat"):
                 ctx.count("repeat-on-same-object:" + job["repeat"])
+            if job.get("pool"):
+                ctx.count("pool-order:" + nm.split(".")[-1])
+                if any(isinstance(r.get("result"), dict) and r["result"].get("pool_used") for r in recs.values()):
+                    ctx.count("pool-order:pool-really-used")
             for f in feats:
                 ctx.count(f)
         if errs:
@@ -405,13 +424,22 @@ def run(ctx):
         if draws:
             confirmed[nm] = True
         # (c) oracle: same arguments + same seed => same result
-        if len(distinct) > 1:
+        inside_flag = any(isinstance(r.get("result"), dict) and (r["result"].get("POOL_ORDER_MATTERS") or
+                                                                 r["result"].get("REPEATED_CALLS_DIFFER"))
+                          for r in recs.values())
+        if len(distinct) > 1 or inside_flag:
             ctx.count("nondeterministic_jobs")
-            rk = (nm, variant, "res" + (":rep" if job.get("repeat") else ""))
+            rk = (nm, variant, "res" + (":rep" if job.get("repeat") else "") + (":pool" if job.get("pool") else ""))
             if rk not in reported:
                 reported.add(rk)
                 reported.add((nm, variant, "res"))
-                if job.get("repeat"):
+                if job.get("pool"):
+                    replay["how"] = ("harness/props/c17_worker.py run_pool(api, variant, net, seed): the same call with "
+                                     "parallel = an in-line FIFO executor, a LIFO one, FIFO again, and parallel=False")
+                    ctx.fail("seeded call depends on the order in which the supplied pool runs its tasks: %s [%s] gives "
+                             "different results under a FIFO and a LIFO in-line executor / parallel=False" % (nm, variant),
+                             replay, key=None, found_input=True)
+                elif job.get("repeat"):
                     replay["history"] = job["repeat"]
                     replay["how"] = ("harness/props/c17_worker.py run_repeat(api, variant, net, seed, history): the call is "
                                      "made three times on ONE object built by build_state (twice in a row, once more after "
